@@ -1,12 +1,12 @@
 SPECIFICATION Spec
 CONSTANTS
-  Mode = "matrix"
-  ProtoSets <- QProtoSets
-  CodecSeqs <- QCodecSeqs
-  CompSeqs <- QCompSeqs
+  Mode = "reject"
+  ProtoSets <- SingleProtoSets
+  CodecSeqs <- OneCodecSeqs
+  CompSeqs <- GzCompSeqs
   ClientForms <- QForms
   ClientCodecs <- QCodecs
-  ClientComps <- QComps
+  ClientComps <- NoComps
   Methods <- QMethods
   MaxMsgs = 2
   EndCodes <- OkOnly
